@@ -15,6 +15,9 @@ are exercised by the correspondence under ASan/UBSan only.
 -/
 import SharkVerif.Lemmas.Import
 import SharkVerif.Lemmas.Peg
+import SharkVerif.Lemmas.ImportCsv
+import SharkVerif.Lemmas.ImportRt
+import SharkVerif.Lemmas.ExportFmt
 import SharkVerif.Model.ImportCsv
 import SharkVerif.Model.ExportFmt
 namespace SharkVerif.C19
@@ -788,6 +791,226 @@ theorem libsvm_roundtrip {V : Type} (zero : V) (labelInt : V → Option Int) (pt
   rw [hrows]
   rfl
 
+
+/-! ## LibSVM round trip with class-label mappings and sparse records (token level) -/
+
+/-- the label `exportSparseData` writes for class `l`: `2l - 1` with `oneMinusOne` (two classes), else `l + 1` -/
+def svmLabelOut (omo : Bool) (l : Nat) : Int := if omo then 2 * (l : Int) - 1 else (l : Int) + 1
+
+/-- **LibSVM round trip, classification, sparse or dense inputs (token level).**  The records `exportSparseData`
+writes for a labelled dataset — per element the mapped class label (`-1/+1` for two classes with `oneMinusOne`,
+else `label + 1`) and `index+1:value` for the stored entries (strictly increasing indices below `d`; a dense
+vector stores every cell) — are read back by the importer logic, for every batch size argument, sparse or dense
+target vectors, as the same entries with the same class labels and `numberOfClasses` as label shape, when
+`highestIndex = d` is passed, class 0 occurs (otherwise the importer's min-shift renumbers: `csv_roundtrip_shift_witness`)
+and dense vectors fit the allocation limit. -/
+theorem libsvm_roundtrip_class {V : Type} (zero : V) (ofInt : Int → V) (labelInt : V → Option Int)
+    (hli : ∀ i, labelInt (ofInt i) = some i)
+    (pts : List (Nat × List (Nat × V))) (d bs limit : Nat) (sparse omo : Bool)
+    (hidx : ∀ p ∈ pts, strictlyIncreasing (p.2.map (·.1)) = true ∧ ∀ q ∈ p.2, q.1 < d)
+    (hne : pts ≠ []) (h0 : 0 ∈ pts.map (·.1)) (homo : omo = true → ∀ p ∈ pts, p.1 ≤ 1)
+    (hlimit : sparse = true ∨ (initBatches pts.length bs).foldl max 1 * d ≤ limit) :
+    importRepaired zero labelInt { sparse := sparse, cls := true, dims := d, bs := bs, allocLimit := limit }
+        (pts.map fun p => ⟨ofInt (svmLabelOut omo p.1), p.2.map fun q => (q.1 + 1, q.2)⟩) =
+      .ok { shape := some d, lshape := some (numberOfClasses (pts.map (·.1))), batches := initBatches pts.length bs,
+            rows := pts.map (fun p => if sparse then Row.sparse d p.2 else Row.dense (denseRow zero d p.2)),
+            labels := .cls (pts.map (·.1)) } := by
+  have hsorted : (pts.map fun p => (⟨ofInt (svmLabelOut omo p.1), p.2.map fun q => (q.1 + 1, q.2)⟩ : Rec V)).all recSorted = true := by
+    rw [List.all_eq_true]; intro r hr
+    obtain ⟨p, hp, rfl⟩ := List.mem_map.mp hr
+    unfold recSorted
+    simp only [List.map_map]
+    have : ((fun (x : Nat × V) => x.1) ∘ fun (q : Nat × V) => (q.1 + 1, q.2)) = (fun n => n + 1) ∘ (fun (x : Nat × V) => x.1) := rfl
+    rw [this, ← List.map_map]
+    exact si_map (hidx p hp).1 (fun x _ y _ h => by omega)
+  have hmax : max (maxIndexLast (pts.map fun p => (⟨ofInt (svmLabelOut omo p.1), p.2.map fun q => (q.1 + 1, q.2)⟩ : Rec V))) d = d := by
+    apply Nat.max_eq_right
+    apply maxIndexLast_le
+    intro r hr q hq
+    obtain ⟨p, hp, rfl⟩ := List.mem_map.mp hr
+    simp only at hq
+    have hmem := List.mem_of_getLast? hq
+    obtain ⟨q', hq', rfl⟩ := List.mem_map.mp hmem
+    have := (hidx p hp).2 q' hq'
+    simp; omega
+  have hzero : hasZeroFirst (pts.map fun p => (⟨ofInt (svmLabelOut omo p.1), p.2.map fun q => (q.1 + 1, q.2)⟩ : Rec V)) = false := by
+    unfold hasZeroFirst
+    rw [List.any_eq_false]
+    intro r hr
+    obtain ⟨p, hp, rfl⟩ := List.mem_map.mp hr
+    cases hh : p.2 with
+    | nil => simp
+    | cons a t => simp
+  have hlab : classLabels ((pts.map fun p => (⟨ofInt (svmLabelOut omo p.1), p.2.map fun q => (q.1 + 1, q.2)⟩ : Rec V)).map
+      fun r => labelInt r.label) = some (pts.map (·.1)) := by
+    simp only [List.map_map, Function.comp_def, hli]
+    cases omo with
+    | false =>
+      have := classLabels_succ (pts.map (·.1)) h0
+      simpa [svmLabelOut, List.map_map, Function.comp_def] using this
+    | true =>
+      have := classLabels_pm1 (pts.map (·.1)) h0 (by
+        intro l hl; obtain ⟨p, hp, rfl⟩ := List.mem_map.mp hl; exact homo rfl p hp)
+      simpa [svmLabelOut, List.map_map, Function.comp_def] using this
+  have hpne : pts.isEmpty = false := by cases pts with
+    | nil => exact absurd rfl hne
+    | cons a t => rfl
+  unfold importRepaired
+  simp only [hsorted, Bool.not_true, Bool.false_eq_true, if_false, List.isEmpty_map, hpne, Bool.and_false, hmax, hzero]
+  rw [if_neg (by omega)]
+  simp only [labelsOf, if_true, hlab, Option.map_some]
+  unfold build
+  simp only [vecSize, deltaOf, Bool.false_eq_true, if_false, Nat.add_zero, List.length_map, List.map_map]
+  rw [if_neg (by
+    rcases hlimit with h | h
+    · simp [h]
+    · simp; intro _; omega)]
+  have hw : (List.map (writes 1 ∘ fun p => (⟨ofInt (svmLabelOut omo p.1), p.2.map fun q => (q.1 + 1, q.2)⟩ : Rec V)) pts) = pts.map (·.2) := by
+    apply List.map_congr_left
+    intro p _
+    simp only [Function.comp, writes, List.map_map]
+    conv => rhs; rw [← List.map_id p.2]
+    apply List.map_congr_left
+    intro q _
+    simp [writeIndex]
+  rw [hw]
+  have hoob : oobOf sparse d (pts.map (·.2)) = none := by
+    apply oobOf_none
+    intro ws hws w hw'
+    obtain ⟨p, hp, rfl⟩ := List.mem_map.mp hws
+    exact (hidx p hp).2 w hw'
+  rw [hoob]
+  simp only [finish, List.map_map, if_true]
+  have hle : (pts.map (·.1)).isEmpty = false := by simp [hpne]
+  rw [if_neg (by simp [hle])]
+  rfl
+
+/-- non-vacuity: two sparse elements, classes 0 and 1, written as `-1 2:7` and `+1 1:8 3:9` -/
+example : importRepaired (0 : Int) some { sparse := true, cls := true, dims := 3, bs := 0, allocLimit := 0 }
+    [⟨-1, [(2, 7)]⟩, ⟨1, [(1, 8), (3, 9)]⟩] =
+    .ok { shape := some 3, lshape := some 2, batches := [2], rows := [.sparse 3 [(1, 7)], .sparse 3 [(0, 8), (2, 9)]],
+          labels := .cls [0, 1] } := by decide
+
+/-! ## printed numbers at BYTE level: character set, and what the lexers read back -/
+
+open SharkVerif.Import.Export in
+/-- **C19, character set of everything the exporters print.**  Every number (`%.<p>e`, `%.<p>g`, any precision, any
+value incl. inf / nan / zeros), every class label and feature index consists only of digits, sign, `.`, `e` and the
+letters of `inf` / `nan`; a CSV cell additionally of the blanks `setw` pads with.  Hence a separator that is not one
+of these characters never occurs inside a cell — the separator hypothesis of the token-level round-trip theorems
+is a checked fact for every such separator, every format and field width. -/
+theorem printed_number_charset (p : Nat) (v : Val) (n : Nat) (i : Int) (sci : Bool) (w : Nat) (sep : Char)
+    (hsep : numChar sep = false) (hb : sep ≠ ' ') :
+    AllNum (fmtE p v) ∧ AllNum (fmtG p v) ∧ AllNum (natDigits n) ∧ AllNum (intDigits i) ∧
+    sep ∉ csvNum sci w v ∧ sep ∉ svmNum v ∧ sep ∉ natDigits n ∧ sep ∉ intDigits i := by
+  have hnot : ∀ s : List Char, AllNum s → sep ∉ s := by
+    intro s hs hmem
+    have := hs sep hmem
+    rw [hsep] at this; exact absurd this (by decide)
+  exact ⟨fmtE_chars p v, fmtG_chars p v, AllNum.natDigits n, AllNum.intDigits i, csvNum_no_separator sci w v sep hsep hb,
+    hnot _ (svmNum_chars v), hnot _ (AllNum.natDigits n), hnot _ (AllNum.intDigits i)⟩
+
+open SharkVerif.Import.Export in
+/-- non-vacuity: the separators of the generated stream (and `:` / line feed of the LibSVM format) qualify; the
+characters of a number do not — with `-`, `+`, `.`, `e` or a digit as separator the written file is ambiguous,
+with `E` it is too (`1E2`), which is why the round trip is claimed for separators outside these only -/
+example : (([',', ';', '\t', '|', ':', '/', '_', '@', '&', '\n'] : List Char).all fun c => !numChar c) = true ∧
+    ((['-', '+', '.', 'e', '0', '9'] : List Char).all numChar) = true := by decide
+
+open SharkVerif.Import.Export in
+/-- **C19, byte-level round trip of the integers the exporters print (exact).**  Class labels (`natDigits`, or
+`intDigits` for `-1` / `+1`) are read back by `int_`, feature indices by `uint_`, as exactly the printed integer,
+whatever follows the token as long as it does not start with a digit (separator, `:`, blank, line end, end of
+input), for every value in the range of the C++ type. -/
+theorem label_index_bytes_roundtrip (n : Nat) (i : Int) (rest : List Char) (hr : NoDigitHead rest) :
+    (n ≤ 2147483647 → Import.int (natDigits n ++ rest) = some ((n : Int), rest)) ∧
+    (-2147483648 ≤ i → i ≤ 2147483647 → Import.int (intDigits i ++ rest) = some (i, rest)) ∧
+    (n < 4294967296 → uint (natDigits n ++ rest) = some (n, rest)) :=
+  ⟨fun h => int_natDigits n rest h hr, fun h1 h2 => int_intDigits i rest h1 h2 hr, fun h => uint_natDigits n rest h hr⟩
+
+open SharkVerif.Import.Export in
+example : Import.int (intDigits (-1) ++ " 1:5".toList) = some (-1, " 1:5".toList) ∧
+    uint (natDigits 4294967295 ++ ":7".toList) = some (4294967295, ":7".toList) ∧
+    NoDigitHead ",1".toList := by
+  refine ⟨by decide, by decide, ?_⟩
+  intro c t h; injection h with h1 _; subst h1; decide
+
+open SharkVerif.Import.Export in
+/-- **C19, byte-level round trip of a value in scientific format, for every binary64 value** (`exportCSV` with
+`scientific = true`, the default).  `double_` applied to the bytes `%.<p>e` printed for the finite non-zero
+double `± m·2^e` — followed by anything that does not start with a digit — consumes exactly the token and returns
+spirit's conversion (`scaled`, every rounding of `real_impl` modelled) of the DECIMAL ROUNDING of the value to
+`p + 1` significant digits, `(ds, ex) = sciDigits p v`.  That is the precise content of "equals the original up
+to the printed precision": `exportCSV` prints 11 significant digits (`precision(10)`), so the re-imported double
+is the reading of that 11-digit decimal, in general not bit-identical to the original (witness below); values with
+at most 11 significant decimal digits — all integers below 10^11 and short dyadic fractions — come back exactly. -/
+theorem value_bytes_roundtrip_sci (p : Nat) (neg : Bool) (m : Nat) (e2 : Int) (rest : List Char) (hp : 0 < p)
+    (hm : m ≠ 0) (hv : isDouble (.fin neg m e2) = true) (hr : NoDigitHead rest) :
+    real (fmtE p (Val.fin neg m e2) ++ rest)
+      = scaled neg (sciDigits p (Val.fin neg m e2).ratOf.1 (Val.fin neg m e2).ratOf.2).1
+          ((sciDigits p (Val.fin neg m e2).ratOf.1 (Val.fin neg m e2).ratOf.2).2 - (p : Int)) rest ∧
+    (sciDigits p (Val.fin neg m e2).ratOf.1 (Val.fin neg m e2).ratOf.2).1 < 10 ^ (p + 1) :=
+  ⟨real_fmtE_double p neg m e2 rest hp hm hv hr, sciDigits_lt p _ _ (ratOf_bounds neg m e2 hv).2.1⟩
+
+open SharkVerif.Import.Export in
+/-- non-vacuity and exactness for short values: `-2.5` is printed as `-2.5000000000e+00` and read back as `-2.5`;
+`0.1` (= 3602879701896397 · 2^-55) is printed as `1.0000000000e-01` and read back as the same double; the
+neighbour of `0.1` one ulp above is printed identically, so it does NOT come back (precision 10 is not bit-exact) -/
+example : real (fmtE 10 (Val.fin true 5 (-1)) ++ [',']) = some (Val.fin true 5 (-1), [',']) ∧
+    real (fmtE 10 (Val.fin false 3602879701896397 (-55)) ++ ['\n']) = some (Val.fin false 3602879701896397 (-55), ['\n']) ∧
+    fmtE 10 (Val.fin false 1801439850948199 (-54)) = fmtE 10 (Val.fin false 3602879701896397 (-55)) ∧
+    isDouble (Val.fin false 3602879701896397 (-55)) = true := by decide
+
+/-! ## the hand-written LAST_COLUMN record loop terminates; the grammars as written in `Csv.cpp` -/
+
+open SharkVerif.Peg in
+/-- **C19, "never hang" for the record loop of `import_csv_reader_points(…, LAST_COLUMN, …)`.**  `parser_total`
+covers one `phrase_parse` call; the loop `do { … } while(r && first != last)` around it is hand-written C++.  For
+every byte sequence, separator and comment character: each successful call consumes at least one byte (the label
+grammar demands a digit), so the loop never repeats a call at the same position (`spin`) and finishes within
+`length + 1` iterations (`fuel`); the importer model's reader is exactly this loop. -/
+theorem last_column_loop_terminates (bytes : List Char) (sep comment : Char) :
+    Csv.readPointsLast bytes sep comment =
+      (Csv.readPointsLastLoopR (if Csv.wsSep sep then pointLastWs else pointLastSep sep) (csvSkipper comment)
+        (bytes.length + 1) bytes []).toOption ∧
+    Csv.readPointsLastLoopR (if Csv.wsSep sep then pointLastWs else pointLastSep sep) (csvSkipper comment)
+        (bytes.length + 1) bytes [] ≠ .spin ∧
+    Csv.readPointsLastLoopR (if Csv.wsSep sep then pointLastWs else pointLastSep sep) (csvSkipper comment)
+        (bytes.length + 1) bytes [] ≠ .fuel := by
+  have hc : consumes (if Csv.wsSep sep then pointLastWs else pointLastSep sep) = true := by split <;> rfl
+  have hw : wfG (if Csv.wsSep sep then pointLastWs else pointLastSep sep) = true := by split <;> rfl
+  have ht := Csv.readPointsLastLoopR_terminates _ (csvSkipper comment) hc hw (bytes.length + 1) bytes [] (Nat.lt_succ_self _)
+  exact ⟨Csv.readPointsLastLoop_eq _ _ _ _ _, ht.1, ht.2⟩
+
+open SharkVerif.Peg in
+/-- non-vacuity: three records through the loop; and a grammar that does not consume would spin -/
+example : Csv.readPointsLastLoopR (pointLastSep ',') (csvSkipper '#') 20 "1,2,0\n3,4,1\n5,6,0".toList []
+      = .done [(0, [Val.fin false 1 0, Val.fin false 1 1]), (1, [Val.fin false 3 0, Val.fin false 1 2]),
+               (0, [Val.fin false 5 0, Val.fin false 3 1])] ∧
+    Csv.readPointsLastLoopR (.star .real) (csvSkipper '#') 5 "x".toList [] = .spin := by decide
+
+open SharkVerif.Peg in
+/-- **C19, the grammars as they are written in `Csv.cpp` since the repair of F-C19-11** (`cleanNumber<T>()` =
+`&p >> p` in place of every `double_` / `auto_`): they parse every input exactly like the modelled grammars — same
+success, same rest, same attribute events — so `import_bytes_wellformed_or_error_csv`, `parser_total` and
+`last_column_loop_terminates` are statements about the repaired grammar text, and the scalar readers
+`*cleanNumber<T>()` are `*int_` / `*uint_` / `*double_`. -/
+theorem csv_grammars_as_written (g sk : G) (s : List Char) :
+    phraseParse (cleanReal g) sk s = phraseParse g sk s ∧
+    phraseParse (.star (clean .int)) sk s = phraseParse valuesInt sk s ∧
+    phraseParse (.star (clean .uint)) sk s = phraseParse valuesUInt sk s ∧
+    phraseParse (.star (clean .real)) sk s = phraseParse valuesReal sk s := by
+  have hstar : ∀ p : G, phraseParse (.star (clean p)) sk s = phraseParse (.star p) sk s := by
+    intro p
+    have : parse (skipper sk) (clean p) = parse (skipper sk) p := funext (Csv.parse_clean _ p)
+    simp only [phraseParse, parse, this]
+  exact ⟨Csv.phraseParse_cleanReal g sk s, hstar _, hstar _, hstar _⟩
+
+open SharkVerif.Peg in
+/-- non-vacuity: the repaired text of the row grammar is a different grammar (with look-ahead) … -/
+example : cleanReal (rowsSep ',') ≠ rowsSep ',' ∧
+    phraseParse (cleanReal (rowsSep ',')) (csvSkipper '#') "1e309,7\n".toList = .fail ∧
+    phraseParse (cleanReal (rowsSep ',')) (csvSkipper '#') "1e308,7\n".toList ≠ .fail := by decide
 
 /-! ## the parsers never hang -/
 
